@@ -8,7 +8,7 @@ CHECKS = {
         technique="runtime monitoring: wait-for/deadlock monitor over audit raw locks under a seeded serialising scheduler",
     ),
     "C02": dict(
-        level_text="Exploration by runtime monitoring: a section table (client boundary) and the raw owner table (lock boundary) are checked at every guard dereference / closure entry, every payload names its lock and carries a version that must equal a shadow copy (no lost, torn, stale or misrouted update), with a scheduling point inside every section and a conservation check (final version = completed exclusive sections) through into_inner at the end.",
+        level_text="Exploration by runtime monitoring: a section table (client boundary) and the raw owner table (lock boundary) are checked at every guard dereference / closure entry, every payload names its lock and carries a version that must equal a shadow copy (no lost, torn, stale or misrouted update), with a scheduling point inside every section, locks with zero-sized payloads (token locks: the audit catalogue checks their holds, the production-lock workload guards data that lives outside them and is watched by Miri / TSan) and a conservation check (final version = completed exclusive sections) through into_inner at the end.",
         design_ref="DESIGN.md §3 C02",
         level_note="Trusted: audit locks, payload/shadow bookkeeping in world.rs/exec.rs. Holds for the programs/schedules/shapes produced.",
         technique="runtime monitoring: section-overlap + payload continuity monitors under a seeded scheduler; Miri and ThreadSanitizer on free-running production locks",
@@ -35,7 +35,7 @@ CHECKS.update({
         technique="runtime monitoring: owner-table diff vs shape oracle, exhaustive small-shape sweep + scheduled episodes",
     ),
     "C06": dict(
-        level_text="Exploration by runtime monitoring: random histories over the key-affecting vocabulary run in lock-step on two threads; after every step, inside every live guard and inside every running scoped closure the thread probes ThreadKey::get() and compares with an executable KeyModel (alive / not alive per thread). Found and fixed one genuine defect (a refused get() released the key).",
+        level_text="Exploration by runtime monitoring: random histories over the key-affecting vocabulary run in lock-step on two threads; after every step, inside every live guard and inside every running scoped closure the thread probes ThreadKey::get() - the ordinary way and from a destructor during an unrelated unwind - and compares with an executable KeyModel (alive / not alive per thread). Found and fixed one genuine defect (a refused get() released the key).",
         design_ref="DESIGN.md §3 C06",
         level_note="Trusted: KeyModel (keyfam.rs, ~20 lines of transitions); the probe get()+drop restores the flag it found (true only since fix 0d590e4 — before it, the probe itself exposed the defect).",
         technique="runtime monitoring: reference-model (KeyModel) lock-step comparison at the client boundary",
@@ -83,7 +83,7 @@ CHECKS.update({
         technique="runtime monitoring: exhaustive enumeration against a reference oracle over audit raw locks",
     ),
     "C14": dict(
-        level_text="Other (compile-gated execution): one minimal offending program per escape route (184 routes: 44 hand-written escape shapes plus the cross product of every key-taking method of the 8 lock / wrapper / collection types with `()`, `&key` and - for guard APIs - `&mut key` in the key position), each with a compiling and running twin; rustc against the rlib built from the current tree decides; accepted offending programs are executed and must show their own harm. Plus run-time probes of which types implement Keyable, and the C06 KeyModel histories as run-time evidence on the accepted surface. Two routes are open on the current tree and recorded as known finding D2; defect D10 (second key after a refused get) was found by the KeyModel and repaired.",
+        level_text="Other (compile-gated execution): one minimal offending program per escape route (190 routes: 50 hand-written escape shapes, including by-value consumption of collection guards, plus the cross product of every key-taking method of the 8 lock / wrapper / collection types with `()`, `&key` and - for guard APIs - `&mut key` in the key position), each with a compiling and running twin; rustc against the rlib built from the current tree decides; accepted offending programs are executed and must show their own harm. Plus run-time probes of which types implement Keyable (and that no key-carrying guard is Clone, Copy, Default, IntoIterator by value, or Send with a GuardSend raw lock), and the C06 KeyModel histories as run-time evidence on the accepted surface. Two routes are open on the current tree and recorded as known finding D2; defect D10 (second key after a refused get) was found by the KeyModel and repaired.",
         design_ref="DESIGN.md §3 C14, §2.8",
         level_note="The 'for all programs' quantifier is sampled by a finite corpus of escape shapes; rejection is rustc's observation. Every *violation* this lane reports is backed by an executed witness.",
         technique="compile-gated corpus with executed witnesses + runtime KeyModel monitor",
@@ -103,7 +103,7 @@ CHECKS.update({
         technique="runtime monitoring: exactly-once drop accounting + Miri / valgrind memcheck on the same workload",
     ),
     "C17": dict(
-        level_text="Exploration by runtime monitoring: every non-acquiring operation runs under a call context; the monitor rejects any blocking raw op inside it and any difference of the owner table before/after (transient try-acquire+release inside Debug is allowed). Locks are free, held by a phantom, held by the caller's own live guard, inside a running scoped closure, or held through a leaked guard; shapes with Poisonable leaves are swept a second time with every wrapper poisoned.",
+        level_text="Exploration by runtime monitoring: every non-acquiring operation runs under a call context; the monitor rejects any blocking raw op inside it and any difference of the owner table before/after (transient try-acquire+release inside Debug is allowed). Locks are free, held by a phantom, held by the caller's own live guard, inside a running scoped closure, or held through a leaked guard; shapes with Poisonable leaves are swept a second time with every wrapper poisoned; every phantom-assignment case also formats into a sink that fails part way and with a payload whose Debug returns Err or panics.",
         design_ref="DESIGN.md §3 C17",
         level_note="Trusted: audit owner table and call contexts. Found and fixed one genuine defect (Debug of a locked Mutex unlocked it).",
         technique="runtime monitoring: before/after owner-table diff + blocking-op detector around non-acquiring calls",
